@@ -17,7 +17,8 @@
    step row, which leaves the cached values unflagged for the duration of a few statements inside
    the transaction:
      * file node:  the code does  UPDATE node; old_creator.after_lost_product(); DELETE edges;
-                   the projection   DELETE edges; after_lost_product; UPDATE node;
+                                  File.initialize_row (state; mark_file_outdated for a former BUILT output);
+                   the projection   DELETE edges; after_lost_product; File.initialize_row; UPDATE node;
      * step node:  the code does  UPDATE node; after_lost_product; DELETE edges; detach products;
                                   DELETE step row; INSERT step row;
                    the projection   DELETE edges; after_lost_product; detach products; DELETE step row;
@@ -250,8 +251,9 @@ Definition create_t (k : key) (creator : option key) (arg : init_arg) (s : st) :
             | Ok (s4, px) =>
               match arg with
               | InitFile f =>
-                dot s5 <- Ok (s4, pd ++ ph ++ [PPlaceFile (idf k) (oid creator) cdet] ++ px);
-                file_initialize_row_t creator cdet (snd k) f s5
+                dot s5 <- Ok (s4, pd ++ ph ++ px);
+                dot s6 <- file_initialize_row_t creator cdet (snd k) f s5;
+                Ok (s6, [PPlaceFile (idf k) (oid creator) cdet])
               | InitStep nd =>
                 dot s5 <- Ok (s4, pd ++ ph ++ px ++ [PDeleteStep (idf k)]);
                 dot s6 <- liftT (step_initialize_row (snd k) nd s5);
